@@ -29,8 +29,9 @@ claim(
     "C16",
     "local shape inference + guard dominance + dependence (AST)",
     "Decides that a cached core is a flat tuple of constraints cached together with the unsat decision, that "
-    "unsat_core() answers () first when satisfiable, and that tracking pairs each original constraint with its "
-    "converted term and survives copy/pickle.",
+    "unsat_core() answers () first when satisfiable and reads the native core only after a check statically bound to "
+    "the native solver it holds, and that tracking pairs each original constraint with its converted term and the "
+    "core fields survive copy/pickle.",
     "Not decided: that Z3's core is itself unsatisfiable (trusted). " + GENERIC_NOTE,
 )
 claim(
@@ -63,8 +64,8 @@ claim(
     "Decides the property for the extracted model: all interleavings at statement granularity with lock semantics "
     "of up to 3 threads, each performing any well-nested sequence of up to 3 enter/exit calls, GC initially on or "
     "off: GC is disabled whenever a call is in progress, the counter equals the number of calls in progress and is "
-    "never negative, the collector's state is restored when the last call returns, the underflow branch is "
-    "unreachable. Pairing of enter/exit in the condom wrapper on all normal and exceptional paths and exclusive "
+    "never negative, the collector's state is restored when the last call of every busy period returns (the "
+    "application may switch the collector between busy periods), the underflow branch is unreachable. Pairing of enter/exit in the condom wrapper on all normal and exceptional paths and exclusive "
     "ownership of the guard state are decided on the CFG / by who-may-write.",
     "The model is extracted from the source on every run (fragment: global, with <module lock>, if, assignment of "
     "constants / gc.isenabled(), += -=, gc.enable/disable, logging, return); a construct outside it is an "
@@ -84,7 +85,9 @@ claim(
 claim(
     "C13",
     "derived-cache/source pairing, guard dominance, polarity tables over Replacement/Hybrid frontends (AST)",
-    "Decides that the replacement lookup cache is always re-seeded from the replacement table, that solver answers "
+    "Decides that the replacement lookup cache is always re-seeded from the replacement table (on add_replacement "
+    "under the caller's flag only), that no code outside the interval classes orders values against raw interval "
+    "bounds, that solver answers "
     "become replacements only under the opt-in flag (default off), that auto-replacements have the right polarity "
     "and direction and VSA bounds are intersected, that constraints always reach the inner frontend, and that the "
     "hybrid frontend uses the approximate side only when exact is False or in the opt-in approximate-first mode.",
@@ -115,12 +118,15 @@ claim(
 )
 claim(
     "C02",
-    "table agreement and parameter-use dependence on the float handlers (AST)",
+    "table agreement and parameter-use dependence on the float handlers; abstract interpretation over the seven IEEE "
+    "classes for the division-by-zero arm (AST)",
     "Decides the rounding-mode tables (decimal and Z3, round trip), that every concrete handler of an op with a "
     "rounding mode uses it (or refuses to fold), that comparisons/predicates/arithmetic delegate to the operator of "
-    "the same meaning in operand order, and that the fpToFP/fpToIEEEBV cancellations are guarded by sort/width "
-    "agreement.",
-    "Not decided: numerical results (0/0, double rounding, subnormals). " + GENERIC_NOTE,
+    "the same meaning in operand order, that the fpToFP/fpToIEEEBV cancellations are guarded by sort/width "
+    "agreement, that the ZeroDivisionError arm of concrete division yields the IEEE class for all 14 "
+    "(numerator class, zero sign) pairs, and that float-to-integer conversions handle NaN and infinity.",
+    "Not decided: numerical results of finite arithmetic (double rounding for single precision, subnormals, "
+    "remainder). " + GENERIC_NOTE,
 )
 claim(
     "C03",
@@ -128,9 +134,9 @@ claim(
     "Decides that no caller string reaches a regex pattern or int() unguarded, that every string op has a concrete "
     "and a Z3 handler of the declared arity with value-based equality, that each handler computes the reference "
     "operation with operands in the positions the Python/Z3 function expects, and that strings are encoded/decoded "
-    "at the Z3 text boundary.",
-    "Not decided: index-arithmetic corner cases (IndexOf with empty pattern past the end, Substr clipping) and the "
-    "correctness of the encoding itself. " + GENERIC_NOTE,
+    "at the Z3 text boundary by an encoder that neutralises every escape form Z3 reads, and that a search in an "
+    "operand-positioned slice is guarded against a start beyond the end.",
+    "Not decided: other index-arithmetic corner cases (Substr clipping at 2**64) beyond the reference shapes. " + GENERIC_NOTE,
 )
 claim(
     "C04",
@@ -138,8 +144,10 @@ claim(
     "shift-bound rules (AST)",
     "Decides that no comparison in Boolean context can be applied to an AST argument (every `P.args[i]` tested for "
     "truth is dominated by `P.op in S` with slot i primitive), that the concrete folding code raises only claripy "
-    "errors and asserts nothing about operand values, that operand-derived left shifts are bounded by the width, "
-    "and (shared) that no caller string reaches a regex pattern.",
+    "errors and asserts nothing about operand values, that operand-derived left shifts are bounded by the width "
+    "(concrete code) or by a dominating comparison (integer shifts in simplifiers by amounts taken out of an AST), "
+    "that float-to-integer conversions handle NaN and infinity, and (shared) that no caller string reaches a regex "
+    "pattern.",
     "Not decided: time and memory in general; implicit exceptions of builtins are not modelled. " + GENERIC_NOTE,
 )
 claim(
@@ -174,16 +182,20 @@ claim(
     "C08",
     "who-may-consult, table and guard-dominance rules on the substitution / ITE utilities (AST)",
     "Decides that identical() is not answered by an approximating backend, that the switch encodings pair "
-    "conditions and branches correctly, that a unique-element selection is dominated by a uniqueness guard, and that "
-    "replace/replace_dict type-check, rebuild with the parent's own op and memoise under the parent's hash.",
+    "conditions and branches correctly and drop a case only when its value equals the accumulated else-branch, that "
+    "a unique-element selection is dominated by a uniqueness guard, that replace/replace_dict type-check, rebuild "
+    "with the parent's own op and memoise under the parent's hash, and that canonicalize never renames a variable "
+    "the caller's map already knows.",
     "Not decided: value-level equivalence of the outputs of excavate/burrow/chop/get_bytes. " + GENERIC_NOTE,
 )
 claim(
     "C09",
     "round-trip closure of the forward Z3 translation against op_map/op_type_map (table agreement, AST)",
     "Decides that the decl kind produced by each op's Z3 translation maps back to that op with the right AST "
-    "class, that ops with non-AST parameters have a recovering arm, that rounding modes round-trip, and that "
-    "ConstrainedFrontend.simplify keeps every constraint and is the only simplification site.",
+    "class, that ops with non-AST parameters have a recovering arm which rebuilds the op of its own name with the "
+    "children in order, that rounding modes round-trip, that ConstrainedFrontend.simplify keeps every constraint and "
+    "is the only simplification site, and that FullFrontend empties its pending-constraint list only where the "
+    "native solver is dropped or was just given everything.",
     "Trusted: that Z3's simplifier preserves meaning; the frozen table of decl kinds per constructor. Not decided: "
     "which other kinds Z3's simplifier may emit. " + GENERIC_NOTE,
 )
@@ -200,7 +212,8 @@ claim(
     "who-may-store (thread-local confinement), context-argument dependence, frozen shared-state list (AST)",
     "Decides that every Z3 handle / conversion cache of the backends lives in per-thread storage, that every Z3 "
     "entry point that cannot infer its context receives this thread's context (or an argument's), that process-wide "
-    "mutable objects are a classified list, and that a frontend's native solver lives in its own threading.local().",
+    "mutable objects (containers, counters, ctypes cells) are a classified list, that per-thread slots are filled "
+    "with objects created for that thread, and that a frontend's native solver lives in its own threading.local().",
     "Not decided: answer equality under real scheduling, races inside Z3. " + GENERIC_NOTE,
 )
 claim(
@@ -220,8 +233,9 @@ claim(
     "sibling agreement between interval-set / value-set operators and the member operations they lift (AST)",
     "Decides that reflected non-commutative operators do not compute the forward operation, that every "
     "element-wise lifted operation names an existing member operation of the same arity and unary minus / "
-    "complement apply the member operator of the same meaning, and that value-set order comparisons answer Maybe "
-    "with != the complement of == and per-region arithmetic applied to every region.",
+    "complement apply the member operator of the same meaning, that StridedInterval.__hash__ covers every "
+    "value-determining field copy() carries (members live in a Python set), and that value-set order comparisons "
+    "answer Maybe with != the complement of == and per-region arithmetic applied to every region.",
     "Not decided: per-member numerics (inherited from C21), collapse/normalisation. " + GENERIC_NOTE,
 )
 claim(
@@ -235,11 +249,14 @@ claim(
 )
 claim(
     "C25",
-    "table agreement and guard dominance in the balancer (AST)",
+    "table agreement, polarity-of-names dataflow and guard dominance in the balancer (AST)",
     "Decides the comparison-info table and trivial assumptions, that less-than adds upper and greater-than lower "
     "bounds with the strictness adjustment in the right direction and bounds accumulate by max/min and are "
-    "intersected, the De Morgan / single-disjunct unpacking rules, and that 'unsatisfiable' is reported only under "
-    "a definite test and only for the balancer's own unsat error.",
-    "Not decided: soundness of the balancing rules themselves (the confirmed x[3:0] >= 3 bound is a numeric fact). "
+    "intersected, that min/max- and left/right-named locals are fed from the matching query / side, the De Morgan / "
+    "single-disjunct unpacking rules, that 'unsatisfiable' is reported only under a definite test and only for the "
+    "balancer's own unsat error, and that every balance rewrite f(x) OP c -> x OP g(c) is returned only under an "
+    "operator restriction for which it is an implication or under a VSA range fact about the bits it discards.",
+    "Not decided: the numeric content of the range facts and of g; the add/sub arms are known findings (no wrap "
+    "condition). "
     + GENERIC_NOTE,
 )
